@@ -54,6 +54,10 @@ func atomB(v bool) *shape   { return finish(&shape{kind: 'b', b: v, depth: 1}) }
 func atomN(n int32) *shape  { return finish(&shape{kind: 'n', n: n, depth: 1}) }
 func atomS(s string) *shape { return finish(&shape{kind: 's', s: s, depth: 1}) }
 
+// atomD is defaultInitValue (tla.ModuledefaultInitValue, the zero Value): generated code stores it in locals and in
+// the tuples of stack frames, so it is a member of the value universe like any other atom.
+func atomD() *shape { return finish(&shape{kind: 'd', depth: 1}) }
+
 func maxDepth(xs ...[]*shape) int {
 	d := 0
 	for _, l := range xs {
@@ -118,6 +122,9 @@ func finish(s *shape) *shape {
 	case 's':
 		s.strict = quoteTLA(s.s)
 		s.norm = s.strict
+	case 'd':
+		s.strict, s.norm = "defaultInitValue", "defaultInitValue"
+		s.tlcOK = false // a model value of the PlusCal translation, not a TLA+ expression TLC can be given
 	case 'S':
 		var a, b []string
 		for _, e := range s.elems {
@@ -254,7 +261,7 @@ func canonOf(v tla.Value, norm bool) string {
 		}
 		return "(" + strings.Join(a, " @@ ") + ")"
 	}
-	return "<nil>"
+	return "defaultInitValue" // the zero Value: no kind at all
 }
 
 // ---- enumeration ------------------------------------------------------------------------------------------
@@ -311,10 +318,12 @@ func buildUniverse(thorough bool) *universe {
 	if thorough {
 		atoms = append(atoms, atomN(2), atomS(`\`), atomS("b c"))
 	}
+	D := atomD()
+	T, N0, N1, Sa, Sq := atoms[0], atoms[2], atoms[3], atoms[6], atoms[7]
+	atoms = append(atoms, D)
 	for _, a := range atoms {
 		u.add(a)
 	}
-	T, N0, N1, Sa, Sq := atoms[0], atoms[2], atoms[3], atoms[6], atoms[7]
 	n2 := atomN(2)
 	seqFn := mkFn([]*shape{N1}, []*shape{N0}) // (1 :> 0), the same TLA+ value as <<0>>
 	var core, vals2, vals3 []*shape
@@ -338,6 +347,9 @@ func buildUniverse(thorough bool) *universe {
 		}
 		vals3 = []*shape{N0, seqFn}
 	}
+	// a stack-frame-like tuple holding defaultInitValue, so that it also occurs nested inside sets, tuples and
+	// functions (membership in a set of such tuples, as key and as value)
+	core = append(core, mkTuple(N0, D))
 	u.collections(atoms, vals2)
 	for i, c := range core {
 		core[i] = u.add(c)
@@ -423,6 +435,8 @@ func build(s *shape, v int, wrap wrapper) tla.Value {
 		return w(tla.MakeNumber(s.n))
 	case 's':
 		return w(tla.MakeString(s.s))
+	case 'd':
+		return w(tla.ModuledefaultInitValue)
 	case 'S':
 		n := len(s.elems)
 		alt := v == variants(s)-1 && n > 0
